@@ -244,6 +244,24 @@ func runC17(o Opts) error {
 				}
 			}
 		}
+		// a caller-built zone whose NAME is also the name of a database zone with other rules: the copy keeps the caller's zone
+		for _, fz := range []*time.Location{time.FixedZone("EET", 2*3600), time.FixedZone("CET", 3600), time.FixedZone("UTC", 5*3600), time.FixedZone("America/New_York", -5*3600), time.FixedZone("Local", 7*3600)} {
+			z := uhppote.Device{Name: "z", DeviceID: genID(r), Doors: []string{"a"}, TimeZone: fz, Protocol: "udp"}
+			summer := time.Date(2024, 7, 1, 12, 0, 0, 0, time.UTC)
+			_, want := summer.In(fz).Zone()
+			zk := z.Clone()
+			u := uhppote.NewUHPPOTE(types.BindAddr{}, types.BroadcastAddr{}, types.ListenAddr{}, time.Second, []uhppote.Device{z}, false)
+			held := u.DeviceList()[z.DeviceID]
+			for _, got := range []*time.Location{zk.TimeZone, held.TimeZone} {
+				if got == nil {
+					s.Fail(map[string]any{"op": "Device.Clone", "zone": fz.String()}, "the copy of a controller lost its time zone")
+					continue
+				}
+				if _, off := summer.In(got).Zone(); off != want || got.String() != fz.String() {
+					s.Fail(map[string]any{"op": "Device.Clone", "zone": fz.String(), "offset_of_copy": off, "offset_of_original": want}, "the copy of a controller carries a different time zone than the one it was configured with")
+				}
+			}
+		}
 		d := uhppote.Device{Name: "d", DeviceID: genID(r), Doors: []string{"a", "b", "c", "d"}, TimeZone: time.UTC, Protocol: "udp"}
 		dk := d.Clone()
 		before = fmt.Sprintf("%v", dk)
